@@ -92,6 +92,15 @@ class Eval:
                 w = self.width_of(t[2])
                 return (-a) & ((1 << w) - 1)
             raise Undecided("unop %s" % t[1])
+        if tag == "ovf":
+            a, b = self.ev(t[2]), self.ev(t[3])
+            w = max(self.width_of(t[2]), self.width_of(t[3]))
+            if w <= 1:
+                w = 64
+            r = {"Add": a + b, "Sub": a - b, "Mul": a * b}.get(t[1])
+            if r is None:
+                raise Undecided("ovf " + t[1])
+            return int(r < 0 or r >= (1 << w))
         if tag == "field":
             # transparent single-field wrappers (bitflags internals): value passes through
             try:
